@@ -25,12 +25,14 @@ pub enum Deps {
 }
 
 pub fn step(sh: Shape, barrier: usize, deps: Deps, new_r: usize, new_w: usize) {
-    let b = pre_state(sh, barrier);
+    // dependencies are chosen as *slots*; the ids sitting in the slots are a solver-chosen permutation
+    let n = sh.n();
+    let perm = if deps == Deps::None { [0, 1, 2, 3, 4, 5, 6, 7] } else { any_permutation(n) };
+    let b = pre_state_ids(sh, barrier, if deps == Deps::None { None } else { Some(&perm) });
     let r = any_rids(new_r);
     let w = any_rids(new_w);
     let time = any_time();
 
-    let n = sh.n();
     let mut dep: SmallVec<[SystemId; 4]> = SmallVec::new();
     let mut d: [usize; 3] = [0, 0, 0];
     let nd = match deps {
@@ -41,7 +43,7 @@ pub fn step(sh: Shape, barrier: usize, deps: Deps, new_r: usize, new_w: usize) {
     };
     if nd >= 1 {
         d[0] = any_below(n);
-        dep.push(SystemId(d[0]));
+        dep.push(SystemId(perm_at(&perm, n, d[0])));
     }
     if nd >= 2 {
         if deps == Deps::TwoEqual {
@@ -50,13 +52,13 @@ pub fn step(sh: Shape, barrier: usize, deps: Deps, new_r: usize, new_w: usize) {
             d[1] = any_below(n);
             assume(d[1] != d[0]);
         }
-        dep.push(SystemId(d[1]));
+        dep.push(SystemId(perm_at(&perm, n, d[1])));
     }
     if nd == 3 {
         d[2] = d[0];
-        dep.push(SystemId(d[2]));
+        dep.push(SystemId(perm_at(&perm, n, d[2])));
     }
-    // positions of the dependencies (comparisons only)
+    // positions of the dependencies: d[i] are slots (comparisons only)
     let ds = [sh.stage_of(d[0]), sh.stage_of(d[1]), sh.stage_of(d[2])];
     let dg = [sh.group_of(d[0]), sh.group_of(d[1]), sh.group_of(d[2])];
 
